@@ -2,6 +2,7 @@
 # Phase 2 of the mutation measurement: for every survivor of phase 1 (passes the suite, changes the observable behaviour of
 # some harness scenario) run the sweep of the functions under contract it can influence. Results: /verif/mutation/phase2.txt
 # ("<id> CAUGHT|MISSED <file:line:col> <operator> [first failed obligations]").
+jq -r '.findings[] | select(.status=="open") | .obligation' /verif/known_findings.json | sort -u > /tmp/rosvc_known_open.txt
 export GOFLAGS=-mod=mod GOPROXY=off GOSUMDB=off GOTOOLCHAIN=local
 OUT=/verif/mutation
 B=$(mktemp -d /tmp/mutbase.XXXXXX); git -C /repo archive HEAD | tar -x -C $B
@@ -15,7 +16,7 @@ one() {
     ALL|"") ONLY="";;
     *) ONLY="-only $A";;
   esac
-  out=$(timeout 1500 /verif/bin/rosvc fn -repo $W $ONLY 2>&1 | grep -E "^   (refuted|undischarged|broken|unknown|timeout) " | grep -v "writeWithMeta.lastcas" | awk '{print $2}' | head -4 | tr '\n' ' ')
+  out=$(timeout 1500 /verif/bin/rosvc fn -repo $W $ONLY 2>&1 | grep -E "^   (refuted|undischarged|broken|unknown|timeout) " | grep -v -F -f /tmp/rosvc_known_open.txt | awk '{print $2}' | head -4 | tr '\n' ' ')
   if [ -z "$out" ]; then echo "$id MISSED $desc"; else echo "$id CAUGHT $desc :: $out"; fi
   rm -rf $W
 }
